@@ -21,9 +21,20 @@ MANIFEST_TEXT = ("Lean 4 theorems, for every process count P, every decompositio
                  "pure numbering, exactly one call per added index on the caller's object, consecutive distinct numbers for a "
                  "counter.  The field-type layouts of calculateMessageSizes / packAndSend / recvAndUnpack are regenerated from "
                  "the source on every run (tr_c13.py) and proved consistent: the receiver unpacks what the sender packed and "
-                 "the reserved buffer suffices for every message size.  Each run executes the real IndicesSyncer (default "
+                 "the reserved buffer suffices for every message size.  Round three: the state of every process after the sync is "
+                 "the unique state meeting a set-theoretic specification (old pairs and entries plus exactly the believed "
+                 "ones, ascending, in sync - sync_determined; it is the closure the harness oracle computes); the numbering "
+                 "of the processes is irrelevant (two worlds that differ by a permutation of the process numbers - another "
+                 "communicator over the same processes - are mapped to worlds that differ by the same permutation: "
+                 "sync_numbering_irrelevant, so neither the rank order of fixed-order processing nor the map order of the "
+                 "neighbours nor the pair order inside a message matter); a sync on a sub-communicator is the sync of its "
+                 "processes alone: processes that know nobody and are listed by nobody neither contribute nor change "
+                 "(sync_subcommunicator).  Each run executes the real IndicesSyncer (default "
                  "numberer, pure user numberer, counting and slot-recycling numberer objects; fixed and arrival order; deletion through RemoteIndexListModifier or "
-                 "SLList iterators; a second delete-and-sync or sync-again round in 40 % of the cases) under mpirun -np 1..4 "
+                 "SLList iterators; a second delete-and-sync or sync-again round in 40 % of the cases; remote indices living on "
+                 "MPI_COMM_WORLD, on a duplicate, on a communicator that renumbers all processes or on a renumbered proper "
+                 "sub-communicator while the remaining processes sync on their own communicator; global indices of type int "
+                 "or long with values beyond 32 bits) under mpirun -np 1..4 "
                  "(quick) / 1..6 (thorough) on random overlapping decompositions with seeded per-rank start delays, compares "
                  "the complete state of every rank before the sync, after it and after the second round with the model and "
                  "evaluates the property itself with a set-theoretic oracle.")
@@ -33,8 +44,16 @@ MANIFEST_NOTE = ("Trusted: Lean kernel (+propext/Classical.choice/Quot.sound), t
                  "from the source by tools/translators/tr_c13.py).  The SLList "
                  "iterator bookkeeping of the syncer (Iterators, resetIteratorsMap, checkReset) and the pointer representation "
                  "of remote indices are covered by the runs + ASan only; the model keeps references as (global, attribute) "
-                 "keys, as the code does during sync.  Hypotheses of the theorems: every global index at most once per index "
-                 "set, beliefs agree with one ground-truth decomposition, neighbourhood symmetric (otherwise the MPI exchange "
+                 "keys, as the code does during sync.  The model has one numbering of the processes (that of the communicator of "
+                 "the remote indices) and integer global indices; that the code uses only that communicator's numbering and "
+                 "ships global indices of any MPITraits type unharmed is covered by the runs (communicators whose numbering "
+                 "and membership differ from MPI_COMM_WORLD, long global indices), not by a theorem (sync_numbering_irrelevant and "
+                 "sync_subcommunicator say that the protocol is indifferent to the numbering and to outsiders; that the code "
+                 "asks the right communicator for its own number is a fact about one MPI call).  Hypotheses of the "
+                 "theorems: every global index at most once per index "
+                 "set (DESIGN.md section 5, C04: shared by C04/C05/C13; index sets that hold one global index several times "
+                 "with different attributes are outside the property and are not generated), beliefs agree with one "
+                 "ground-truth decomposition, neighbourhood symmetric (otherwise the MPI exchange "
                  "itself does not match).  The model describes the tree with fixes/C13_*.patch applied; in particular each "
                  "sync only consumes the messages of that sync (fixes/C13_syncer_arrival_order_mixes_syncs.patch; before it, "
                  "MPI_ANY_SOURCE let a fast neighbour's next-sync message be taken for a slow neighbour's outstanding one).")
@@ -45,7 +64,11 @@ HARNESS = dict(
     mpi=True,
     repo_sources=["dune/common/exceptions.cc", "dune/common/stdstreams.cc"],
 )
-RULE = ("cases: rank 0 draws a decomposition (<= 9 quick / 14 thorough global indices, each on one rank, all ranks, a random "
+RULE = ("cases: rank 0 draws the communicator the remote indices live on (30 % MPI_COMM_WORLD, 10 % a duplicate, 30 % all "
+        "processes in a random order = MPI_Comm_split with a key, 30 % a proper subset of P-1 or P-2 processes in random order "
+        "while the remaining processes run the same calls with empty index sets on the complementary communicator; holder "
+        "numbers of the op line and the answers r<i> are by rank in that communicator), the global index type (1/3 long with "
+        "value g*(2^32+3), else int) and a decomposition (<= 9 quick / 14 thorough global indices, each on one rank, all ranks, a random "
         "subset, or - sparse style - on consecutive ranks only) with owner/overlap/copy-style, ownerless, arbitrary or uniform "
         "attributes; every rank builds its index set and RemoteIndices::rebuild; non-owner copies (in 1/6 of the cases owner "
         "copies too) are deleted with probability 0/25/50/75/100 % (markAsDeleted + removal of the remote entries through "
@@ -63,7 +86,9 @@ ASSUMPTIONS = [
     "the Lean model lean/DuneVerif/Model/C13.lean is hand-written (protocol level); its fidelity to indicessyncer.hh rests on this differential run (P <= 6, <= 2 rounds)",
     "MPI is trusted: reliable, pairwise FIFO; of the wire format only the sequence of field types is modelled (regenerated from the source by tr_c13.py: MPI_Pack_size/MPI_Pack/MPI_Unpack calls with their loop nesting); the bytes are exercised only",
     "the consistent initial state is defined in the model directly from the decomposition by the specification of RemoteIndices::rebuild (C04 proves that rebuild meets it); the harness uses the real rebuild and compares the state before the sync with the model as well",
-    "every global index occurs at most once per index set; all beliefs agree with one decomposition; the neighbour relation is symmetric",
+    "every global index occurs at most once per index set (hypothesis shared by C04/C05/C13, DESIGN.md section 5 C04; seeded change C13_w2m3 needs an index held twice by one process and is therefore outside the property: design_notes/C13.md); all beliefs agree with one decomposition; the neighbour relation is symmetric",
+    "communicator and global index type are configurations of the real code only (the model numbers processes as the communicator does and has integer global indices): covered by the differential runs and the oracle on renumbered/sub-communicators and long global indices; sync_numbering_irrelevant / sync_subcommunicator prove that the model's result does not depend on the numbering and that processes outside the communicator do not take part",
+    "a case is given 30 s (a message sent to the wrong process or communicator is never received and ends in the per-case alarm = crash at that op line)",
     "arrival orders are varied by seeded start delays (after fixes/C13_syncer_arrival_order_mixes_syncs.patch the syncer no longer probes MPI_ANY_SOURCE, so the PMPI scheduler has nothing to permute); order independence for all orders is the theorem order_irrelevant",
     "the model describes the tree with fixes/C13_syncer_duplicate_remote_entry.patch, fixes/C13_syncer_index_added_twice.patch, fixes/C13_modifier_repair_pointers.patch, fixes/C13_syncer_arrival_order_mixes_syncs.patch and fixes/C13_syncer_object_reusable.patch applied",
 ]
